@@ -121,6 +121,25 @@ def lattice_failures(sym, spinful, edges, form, st=None):
     sites = sorted({s for e in edges for s in e}, key=repr)
     kw, tt, VV, UU, MM = coefficient_forms(edges, form, spinful)
     name = "ham_fermi_hubbard_from_edges" if spinful else "ham_fermi_hubbard_spinless_from_edges"
+    if form == "dict":
+        # history: a first build with other values, then the caller updates the SAME containers in place
+        before = {k: dict(v) for k, v in kw.items() if isinstance(v, dict)}
+        try:
+            getattr(sr, name)(sym, edges, **kw)
+        except Exception as e:
+            return [(f"C19/{name}/raised-{type(e).__name__}", f"{edges} form={form}: {e}")]
+        for k, v in before.items():
+            if kw[k] != v:
+                fails.append((f"C19/{name}/caller-container-modified", f"the {k} dict handed to the builder was changed: {sorted(set(kw[k]) ^ set(v), key=repr)[:4]}"))
+        for k in before:
+            for key in list(before[k]):
+                kw[k][key] = kw[k][key] * 1.5 + 0.25
+        tt = {e: v * 1.5 + 0.25 for e, v in tt.items()}
+        MM = {s_: v * 1.5 + 0.25 for s_, v in MM.items()}
+        if spinful:
+            UU = {s_: v * 1.5 + 0.25 for s_, v in UU.items()}
+        else:
+            VV = {e: v * 1.5 + 0.25 for e, v in VV.items()}
     try:
         terms = getattr(sr, name)(sym, edges, **kw)
     except Exception as e:
